@@ -355,6 +355,9 @@ class _Beam(_IModel):
         u = simu._Get_u_n(simu.problemType, asCsrMatrix=True)
         integral = (u.T @ f)[0, 0]
         kappa = bending_inertia**2 / (section.area * integral)
+        # the helper simulation must not stay registered as an observer of the section: the beam would
+        # keep it (and its local form closures) alive, which makes the beam impossible to pickle
+        section._Remove_observer(simu)
         return kappa
 
 
